@@ -38,7 +38,8 @@ class Task final {
 
   Task() noexcept = default;
   ~Task() noexcept {
-    if (Valid()) {
+    // A Task that already completed (co_await Await(task)) only has its result to release, it must not be started again
+    if (Valid() && !Ready()) {
       std::move(*this).Cancel();
     }
   }
